@@ -35,7 +35,7 @@ def shards(tier, seed):
     return [{"kind": "maps", "index": i, "of": n} for i in range(n)]
 
 
-def build(rules, strict, merge, redirect_defaults, sort_parameters=False, websocket=False):
+def build(rules, strict, merge, redirect_defaults, sort_parameters=False):
     from werkzeug.routing import Map, Rule
 
     rl = []
@@ -49,7 +49,7 @@ def build(rules, strict, merge, redirect_defaults, sort_parameters=False, websoc
             kw["defaults"] = dict(r["defaults"])
         if r.get("alias"):
             kw["alias"] = True
-        if websocket:
+        if r.get("ws"):
             kw["websocket"] = True
             rl.append(Rule(R.rule_str(r), endpoint=r["ep"], **kw))
         else:
@@ -108,10 +108,17 @@ def check_map(rec, rng, rules, strict, merge, rd, script, scheme, sub):
 
     sortp = rng.random() < 0.3
     ws = scheme in ("ws", "wss")
-    if ws:
-        rules = [dict(r, methods=None) for r in rules]  # websocket rules carry no method sets
+    # the rules of the adapter's own kind (websocket rules for ws/wss, HTTP rules otherwise) plus, in a third of the maps,
+    # some rules of the other kind: those can never answer this adapter, so nothing may redirect towards them
+    mixed = rng.random() < 0.35
+    other = {ep: mixed and rng.random() < 0.4 for ep in sorted({r["ep"] for r in rules})}  # per endpoint: an alias / defaults
+    rules = [dict(r, ws=(ws != other[r["ep"]])) for r in rules]                               # rule is of its endpoint's kind
+    rules = [dict(r, methods=None) if r["ws"] else r for r in rules]  # websocket rules carry no method sets
+    all_rules = rules
+    if mixed and any(r["ws"] != ws for r in rules):
+        rec.observe("maps_mixing_http_and_websocket_rules")
     try:
-        m = build(rules, strict, merge, rd, sortp, websocket=ws)
+        m = build(rules, strict, merge, rd, sortp)
     except Exception as e:
         rec.observe(f"map_build_error:{type(e).__name__}")
         return
@@ -119,8 +126,9 @@ def check_map(rec, rng, rules, strict, merge, rd, script, scheme, sub):
     host = f"{sub}.h.com" if sub else "h.com"
     paths = hostile_paths(rng, C3.gen_paths(rng, rules, 3))
     strs = [R.rule_str(r) for r in rules]
+    rules = [r for r in all_rules if r["ws"] == ws]  # what the reference sees: rules that can answer this adapter
     sp = script.rstrip("/")
-    base_case = {"rules": strs, "rule_opts": [[r.get("strict"), r.get("merge"), r.get("defaults"), r.get("alias"), r["methods"]] for r in rules],
+    base_case = {"rules": strs, "rule_opts": [[r.get("strict"), r.get("merge"), r.get("defaults"), r.get("alias"), r["methods"], r["ws"]] for r in all_rules],
                  "strict": strict, "merge": merge, "redirect_defaults": rd, "script": script, "scheme": scheme, "subdomain": sub}
     for p in paths:
         qkind = rng.choice(["none", "str", "map"])
@@ -128,9 +136,11 @@ def check_map(rec, rng, rules, strict, merge, rd, script, scheme, sub):
         rec.case()
         if p.startswith(("//", "/\\")):
             rec.observe("hostlike_paths")
-        case = dict(base_case, path=p, query=qkind)
+        method = "GET" if ws else rng.choice(["GET", "GET", "GET", "POST", "HEAD", "DELETE"])
+        rec.observe("method:" + method)
+        case = dict(base_case, path=p, query=qkind, method=method)
         try:
-            ad.match(p, method="GET", query_args=q)
+            ad.match(p, method=method, query_args=q)
             rec.observe("no_redirect")
             continue
         except RequestRedirect as e:
@@ -142,7 +152,7 @@ def check_map(rec, rng, rules, strict, merge, rd, script, scheme, sub):
             rec.violation(f"C12/unexpected-exception:{type(e).__name__}", f"{e!r}; {case}", case, monitor="boundary")
             continue
         rec.observe("redirects_seen")
-        rec.nontrivial(hash((tuple(strs), strict, merge, rd, script, scheme, sub, p, qkind)) & 0xFFFFFFFFFFFFFFFF)
+        rec.nontrivial(hash((tuple(strs), strict, merge, rd, script, scheme, sub, p, qkind, method)) & 0xFFFFFFFFFFFFFFFF)
         u = urlsplit(url)
         if u.scheme != scheme or u.netloc != host:
             rec.violation("C12/redirect-off-bound-host", f"{url!r} (bound {scheme}://{host}); {case}", case, monitor="redirect-target")
@@ -184,7 +194,7 @@ def check_map(rec, rng, rules, strict, merge, rd, script, scheme, sub):
         while hops < 6:
             path = unquote(urlsplit(cur).path[len(sp):])
             try:
-                final = ad.match(path, method="GET", query_args=q)
+                final = ad.match(path, method=method, query_args=q)
                 break
             except RequestRedirect as e2:
                 hops += 1
@@ -211,7 +221,7 @@ def check_map(rec, rng, rules, strict, merge, rd, script, scheme, sub):
             rec.violation("C12/redirect-chain-too-long", f"{url!r}: {hops + 1} redirects; {case}", case, monitor="follow")
             continue
         rec.observe("followed_to_match")
-        den = lenient_denotation(rules, pp, "GET")
+        den = lenient_denotation(rules, pp, method)
         got = (final[0], tuple(sorted(final[1].items(), key=lambda kv: kv[0])))
         if got not in den:
             # the map itself may be ambiguous at the target (two rules admit the canonical URL): which of them wins is
@@ -220,7 +230,7 @@ def check_map(rec, rng, rules, strict, merge, rd, script, scheme, sub):
             for hop_url in seen:
                 tpath = unquote(urlsplit(hop_url).path[len(sp):])
                 for r in rules:
-                    if R.ok_method(r, "GET"):
+                    if R.ok_method(r, method):
                         for stt in (True, False):
                             a = R.admits(r, tpath, stt)
                             if a and a[0] == "match":
@@ -250,6 +260,9 @@ def gen_rules(rng):
             last = r["segs"][-1]
             dv = 1 if last[2][0] == "int" else "zz"
             base = dict(r, segs=list(r["segs"][:-1]), defaults={last[4]: dv}, branch=True if not r["segs"][:-1] else r["branch"])
+            if rng.random() < 0.4:
+                # the rule providing the defaults answers fewer / other methods than the rule it shortens
+                base["methods"] = rng.choice([["GET"], ["POST"], None])
             extra.append(base)
             if rng.random() < 0.5:
                 # an alias whose *defaults* select the canonical URL: /old<k>.html -> build(endpoint, var=value)
